@@ -148,6 +148,8 @@ def build_model(g, rec, order=None, model_name="symg"):
             m.add_edge(p, x, param_name=param)
         if x in g.get("meta", []):
             m[x].uses_meta = True
+        elif x in g.get("meta_false", []):
+            m[x].uses_meta = False         # the flag is present but False: the node does NOT declare metadata
     return m
 
 
